@@ -346,6 +346,109 @@ def w_regroup(case, led):
                     led.check(False, "post:Mpo.__init__:total", "Mpo.__init__", f"{kind}: raised {type(e).__name__}: {e}", key, {"algo": algo}, rep)
 
 
+def w_copy_swap(case, led):
+    """a copy taken before site exchanges is an operator of its own: exchanging sites of the copy, then of the original (same bond, then the next one), leaves
+    each of them the permuted Hamiltonian of ITS site order"""
+    _, seed, tier = case
+    from renormalizer.model import Model, basis as ba
+    from renormalizer.mps import Mpo
+    rng = np.random.default_rng([seed, 1720])
+    n = 5
+    basis = [ba.BasisHalfSpin(f"s{i}") for i in range(n)]
+    model = Model(basis, [])
+    terms = U.random_terms(model, rng, 8, max_sites=3)
+    if not terms:
+        return
+    ref = U.dense_terms(model, terms)
+    scale = max(1.0, float(np.abs(ref).max()))
+    dims = [2] * n
+    for algo in ("Hopcroft-Karp", "qr"):
+        for i in (1, 2):
+            key = ("copy-swap", seed, algo, i)
+            rep = {"nsites": n, "algo": algo, "bond": i, "terms": [repr(t) for t in terms], "seed": seed,
+                   "history": "H = Mpo(model, terms); C = H.copy(); C.try_swap_site(sites i,i+1); H.try_swap_site(sites i,i+1); H.try_swap_site(sites i+1,i+2)"}
+            try:
+                H = Mpo(model, terms, algo=algo)
+                C = H.copy()
+                sw_algo = "Hopcroft-Karp"
+
+                def swapped(b_, j):
+                    nb = list(b_)
+                    nb[j], nb[j + 1] = nb[j + 1], nb[j]
+                    return nb
+                bC = swapped(basis, i)
+                C.try_swap_site(Model(bC, []), swap_jw=False, algo=sw_algo)
+                P = perm_matrix(list(dims), i)
+                led.check(np.abs(S.dense(C) - P @ ref @ P.T).max() <= 1e-8 * scale and np.abs(S.dense(H) - ref).max() <= 1e-8 * scale,
+                          "post:Mpo.try_swap_site:copy_and_original_are_independent", "Mpo.try_swap_site", "after exchanging sites of the copy: copy != P H P^T or the original changed",
+                          key + ("copy",), {"algo": algo}, rep)
+                bH = swapped(basis, i)
+                H.try_swap_site(Model(bH, []), swap_jw=False, algo=sw_algo)
+                cur = P @ ref @ P.T
+                ok1 = np.abs(S.dense(H) - cur).max() <= 1e-8 * scale
+                j = i + 1 if i + 2 < n else i - 1
+                bH2 = swapped(bH, j)
+                H.try_swap_site(Model(bH2, []), swap_jw=False, algo=sw_algo)
+                P2 = perm_matrix(list(dims), j)
+                cur2 = P2 @ cur @ P2.T
+                err = float(np.abs(S.dense(H) - cur2).max())
+                led.check(ok1 and err <= 1e-8 * scale, "post:Mpo.try_swap_site:original_swaps_correctly_after_its_copy_was_swapped", "Mpo.try_swap_site",
+                          f"the original, exchanged at the same bond after its copy and then at bond {j}: deviation from the permuted Hamiltonian {err:.2e}", key + ("orig",), {"algo": algo}, rep)
+            except Exception as e:
+                import traceback
+                tb = traceback.extract_tb(e.__traceback__)[-1]
+                led.check(False, "post:Mpo.try_swap_site:total", "Mpo.try_swap_site", f"raised {type(e).__name__} in {tb.name}: {e}", key + ("total",),
+                          {"algo": algo, "exception": type(e).__name__, "raised_in": tb.name, "statement": (tb.line or "").strip()}, rep)
+
+
+def w_units(case, led):
+    """scale covariance down to tiny absolute coefficients (a Hamiltonian written in small units), and the Holstein wrappers with a unit-carrying scale"""
+    _, seed, tier = case
+    from renormalizer.model import Model, Op, basis as ba
+    from renormalizer.mps import Mpo
+    from renormalizer.utils import Quantity
+    rng = np.random.default_rng([seed, 1721])
+    basis = [ba.BasisHalfSpin("s0"), ba.BasisSHO("v1", omega=1.1, nbas=3), ba.BasisHalfSpin("s2")]
+    model = Model(basis, [])
+    terms = U.random_terms(model, rng, 5, max_sites=3, complex_factors=True)
+    if terms:
+        ref = U.dense_terms(model, terms)
+        for sc in (1e-11, 3e-14, 1e-20):
+            for algo in ALGOS:
+                key = ("tiny-scale", seed, sc, algo)
+                rep = {"scale": sc, "algo": algo, "terms": [repr(t) for t in terms], "seed": seed}
+                try:
+                    # spread of two orders of magnitude inside the tiny Hamiltonian
+                    tt = [t * (sc * (0.01 if k_ % 2 else 1.0)) for k_, t in enumerate(terms)]
+                    want = U.dense_terms(model, tt)
+                    err = float(np.abs(S.dense(Mpo(model, tt, algo=algo)) - want).max())
+                    led.check(err <= 1e-9 * float(np.abs(want).max()), "post:Mpo.__init__:dense_equals_sum_of_products_at_tiny_scale", "Mpo.__init__",
+                              f"coefficients of order {sc}: relative deviation {err / float(np.abs(want).max()):.2e}", key, {"algo": algo, "scale": sc}, rep)
+                except Exception as e:
+                    led.check(False, "post:Mpo.__init__:total", "Mpo.__init__", f"tiny scale {sc}: raised {type(e).__name__}: {e}", key, {"algo": algo}, rep)
+    # Holstein wrappers
+    try:
+        from props.C10 import holstein
+        hm = holstein(3, 2, seed=seed)
+        au_per_ev = 1.0 / 27.211386245988
+        for sc_q, sc_au in ((Quantity(2.0, "eV"), 2.0 * au_per_ev), (Quantity(0.5), 0.5)):
+            e_opera, ph_opera = {0: r"a^\dagger", 2: "a"}, {(1, 0): r"b^\dagger"}
+            mpo = Mpo.intersite(hm, e_opera, ph_opera, scale=sc_q)
+            op = Op(r"a^\dagger", 0) * Op("a", 2) * Op(r"b^\dagger", (1, 0)) * sc_au
+            ref = U.dense_terms(hm, [op])
+            err = float(np.abs(S.dense(mpo) - ref).max())
+            led.check(err <= 1e-9 * max(1e-12, float(np.abs(ref).max())), "post:Mpo.intersite:product_of_the_named_operators_times_the_scale_in_atomic_units", "Mpo.intersite",
+                      f"scale {sc_q.value} {sc_q.unit}: deviation {err:.2e} (|reference| {float(np.abs(ref).max()):.2e})", ("intersite", seed, sc_q.unit), {"unit": sc_q.unit},
+                      {"scale": f"{sc_q.value} {sc_q.unit}", "e_opera": str(e_opera), "ph_opera": str(ph_opera)})
+        for opera in ("b", r"b^\dagger", r"b^\dagger b"):
+            mpo = Mpo.ph_onsite(hm, opera, 1, 0)
+            ref = U.dense_terms(hm, [Op(opera, (1, 0))])
+            led.check(float(np.abs(S.dense(mpo) - ref).max()) <= 1e-12, "post:Mpo.ph_onsite:named_operator_on_the_named_mode", "Mpo.ph_onsite", f"ph_onsite({opera!r}, 1, 0) differs from the operator",
+                      ("ph_onsite", seed, opera), {}, {"opera": opera})
+    except Exception as e:
+        led.check(False, "post:Mpo.intersite:total", "Mpo.intersite", f"raised {type(e).__name__}: {e}", ("intersite", seed, "total"), {}, {})
+
+
 def w_wide_table(case, led):
     """a term table whose row keys leave the 16-bit range: 6 spin sites, 600 distinct terms that each carry a word of 1-5 Pauli letters on EVERY site (about 1700
     distinct one-site operators, bonds up to 600, so bond index x operator index exceeds 65535) - still a 64 x 64 operator with a dense reference"""
@@ -412,6 +515,8 @@ def check(run):
     run_cases(run, w_regroup, [("regroup", s, run.tier) for s in seeds])
     run_cases(run, w_wrappers, [("wrappers", s, run.tier) for s in seeds])
     run_cases(run, w_wide_table, [("wide", run.seed, run.tier)])
+    run_cases(run, w_copy_swap, [("copyswap", s, run.tier) for s in seeds])
+    run_cases(run, w_units, [("units", s, run.tier) for s in seeds])
     from props import C01_sym
     guarded(run, C01_sym.prove_chain)
     run.rule = ("models {spin chains, spin with 1 and 2 quantum numbers, spin+shifted oscillator+electron, Holstein-like, multi-DoF electron sites, single site, "
